@@ -352,6 +352,13 @@ func buildPool(r *rng.R) ([]HistOp, []*filegen.File, []string) {
 			op.Note = "aborted_invalid_utf8_panic"
 		case 2:
 			op.Fault = DiskFault{Kind: []string{"enoent", "eio", "empty", "torn", "flip"}[r.Intn(5)], Offset: r.Intn(200)}
+		case 7:
+			// a legal font config that names no default font (format() without a font id then
+			// has no font at all - whatever the compiler does must not depend on map order)
+			op.Files = map[string]string{"font_config.json": string(f.Fonts.WithoutDefault().JSON())}
+			op.Opts.DefaultFont = ""
+			op.SharedSet = i
+			op.Note = "font_config_without_default"
 		case 6:
 			// the same source under ANOTHER project's font config (same path, same font ids,
 			// other metrics): nothing computed for one config may be reused for the other
